@@ -105,7 +105,11 @@ pub async fn run_case(case: &Case) -> CaseOut {
     if res.len() != 1 {
         out.fail(Fail::new(
             "not-exactly-one-outcome",
-            format!("the synchronisation resolved {} times: {:?}", res.len(), res),
+            format!(
+                "the synchronisation resolved {} times: {:?}",
+                res.len(),
+                res
+            ),
         ));
         return out;
     }
@@ -128,7 +132,10 @@ pub async fn run_case(case: &Case) -> CaseOut {
         // the scripted outstation answered everything properly: the harness itself is sound only if that succeeds
         out.fail(Fail::new(
             "T-faithful-replies-rejected",
-            format!("{name} procedure with faithful replies failed: {}", res[0].1),
+            format!(
+                "{name} procedure with faithful replies failed: {}",
+                res[0].1
+            ),
         ));
     }
     if let Some(f) = rig.task_failure.take() {
